@@ -84,6 +84,7 @@ class SymCtx:
     def __init__(self, engine=None):
         self.engine = engine
         self.side = []
+        self.state = None
 
     # booleans
     def true(self):
